@@ -494,7 +494,9 @@ class WebSocket:
                     return self.cont_frame.extract(frame)
 
             elif frame.opcode == ABNF.OPCODE_CLOSE:
-                self.send_close()
+                # reply once: not when our own close frame is already out
+                if self.connected:
+                    self.send_close()
                 return frame.opcode, frame
             elif frame.opcode == ABNF.OPCODE_PING:
                 if len(frame.data) < 126:
